@@ -7,6 +7,7 @@ of `Model/Construct.lean`, whose arithmetic is regenerated from the source.
 -/
 import Matreex.Model.Construct
 import Matreex.Lemmas.Bridge
+import Matreex.Lemmas.BridgeT8
 import Matreex.Lemmas.Except
 import Matreex.Gen.AllocOrder
 
@@ -260,5 +261,24 @@ example : sizeDecision 4 ⟨2 ^ 31, 2 ^ 29⟩ .colMajor = .ok (.ok (⟨2 ^ 29, 2
   rw [sizeDecision_spec]; simp [usizeMax, isizeMax, Shape.toAxis]
 example : sizeDecision 0 ⟨2 ^ 64 - 1, 1⟩ .rowMajor = .ok (.ok (⟨2 ^ 64 - 1, 1⟩, 2 ^ 64 - 1)) := by
   rw [sizeDecision_spec]; simp [usizeMax, isizeMax, Shape.toAxis]
+
+
+/-- the constructors and `reshape` the theorems of this file are about ARE the source's functions:
+the definitions regenerated from `src/construct.rs` / `src/lib.rs` on every run (`Gen/T8Gen.lean`,
+translator T8 — which conversion is applied to which operand, what `check_size` measures, the
+order of checks and allocation, the allocation's operands, loop bound and `Index::from_flattened`
+operands, every early exit with its error and what was assigned before it, `Order::default()`
+read from `src/order.rs`) equal the model's, faults included, with no hypothesis; `reshape` also
+on the element count alone (huge zero-sized matrices) -/
+theorem constructors_are_the_source (es : Nat) (s : Shape) (v : α) (g : Index → α) :
+    Gen.Matrix.with_value es s v = Matrix.withValue es s v ∧
+    Gen.Matrix.with_default es s v = Matrix.withDefault es s v ∧
+    Gen.Matrix.with_initializer es s g = Matrix.withInitializer es s g :=
+  ⟨BridgeT8.with_value_bridge es s v, BridgeT8.with_default_bridge es s v, BridgeT8.with_initializer_bridge es s g⟩
+
+theorem reshape_is_the_source (m : Matrix α) (s : Shape) (o : Order) (sh0 : AxisShape) (size : Nat) :
+    Gen.Matrix.reshape m.hdr m.data.size s = (m.reshape s).map (fun p => (p.1, p.2.hdr)) ∧
+    (Gen.Matrix.reshape ⟨o, sh0⟩ size s).map (fun r => r.1.map fun _ => r.2.shape) = reshapeDecision size s o :=
+  ⟨BridgeT8.reshape_bridge m s, BridgeT8.reshape_decision_bridge o sh0 size s⟩
 
 end Matreex.C08
